@@ -1,4 +1,139 @@
-From Radius Require Import Base.Bytes Base.Res Model.Attrs Model.Packet Model.Helpers Proofs.Helpers.
-Theorem C12_raw_depends_on_attributes_only : forall d p p', pattrs p = pattrs p' -> h_raw d p = h_raw d p'.
-Proof. exact h_raw_attrs. Qed.
-Print Assumptions C12_raw_depends_on_attributes_only.
+(* C12 — generated helpers obey the Set/Add/Get/Gets/Lookup/Del laws, for every descriptor
+   (kind x has_tag x encrypt x size x vendor), every packet and every value of the parameter's Go type.
+   Model: Model/Helpers.v over Model/Vendor.v, Model/Codecs.v, Model/Passwords.v, Model/Attrs.v; tied to all
+   shipped helper packages by the gendriver registry and the helper correspondence (harness C12).
+   Hs is the hash; the laws are instantiated with the MD5 of Crypto/MD5.v at the end. *)
+From Radius Require Import Base.Bytes Base.Res Model.Attrs Model.Packet Model.Helpers Model.Vendor
+  Spec.C04 Spec.C10 Spec.C11 Proofs.Helpers Crypto.MD5.
+Open Scope nat_scope.
+
+(* after a successful Set, Lookup returns the value with its tag and Gets returns exactly [v],
+   whatever the packet held before *)
+Theorem C12_set_lookup : forall Hs : bytes -> bytes, (forall x, length (Hs x) = 16) ->
+  forall d p p' q salt tag v,
+  wfd d -> is_concat d = false -> admissible d tag v -> auth q = auth p -> length salt = 2 ->
+  h_set Hs d p salt tag v = Ok p' ->
+  exists tv, h_lookup Hs d p' q = Ok tv /\ h_gets Hs d p' q = Ok [tv] /\ reads_back d tag v tv.
+Proof. exact set_lookup. Qed.
+Print Assumptions C12_set_lookup.
+
+Theorem C12_set_lookup_concat : forall Hs : bytes -> bytes, (forall x, length (Hs x) = 16) ->
+  forall d p p' q salt tag v,
+  wfd d -> is_concat d = true -> g_b v <> [] -> h_set Hs d p salt tag v = Ok p' ->
+  h_lookup Hs d p' q = Ok (0%N, gv_b (g_b v)) /\ Forall (fun c => 1 <= length c <= 253) (h_raw d p').
+Proof. exact set_lookup_concat. Qed.
+Print Assumptions C12_set_lookup_concat.
+
+(* Add appends: Gets returns all values in order *)
+Theorem C12_add_gets : forall Hs : bytes -> bytes, (forall x, length (Hs x) = 16) ->
+  forall d p p' q salt tag v xs,
+  wfd d -> is_concat d = false -> admissible d tag v -> auth q = auth p -> length salt = 2 ->
+  h_add Hs d p salt tag v = Ok p' -> decode_all Hs d p' q (h_raw d p) = Ok xs ->
+  exists tv, h_gets Hs d p' q = Ok (xs ++ [tv]) /\ reads_back d tag v tv.
+Proof. exact add_gets. Qed.
+Print Assumptions C12_add_gets.
+
+(* Del removes every occurrence *)
+Theorem C12_del_lookup : forall Hs d p q,
+  exists p', h_del d p = Ok p' /\ h_lookup Hs d p' q = Err E_noattr /\ h_gets Hs d p' q = Ok [].
+Proof. exact del_lookup. Qed.
+Print Assumptions C12_del_lookup.
+
+(* an operation on one attribute never alters another *)
+Theorem C12_set_non_interference : forall Hs d d' p p' q salt tag v, wfd d -> distinct d d' ->
+  h_set Hs d p salt tag v = Ok p' ->
+  h_lookup Hs d' p' q = h_lookup Hs d' p q /\ h_gets Hs d' p' q = h_gets Hs d' p q.
+Proof. exact set_non_interference. Qed.
+Print Assumptions C12_set_non_interference.
+Theorem C12_add_non_interference : forall Hs d d' p p' q salt tag v, wfd d -> distinct d d' ->
+  h_add Hs d p salt tag v = Ok p' ->
+  h_lookup Hs d' p' q = h_lookup Hs d' p q /\ h_gets Hs d' p' q = h_gets Hs d' p q.
+Proof. exact add_non_interference. Qed.
+Print Assumptions C12_add_non_interference.
+Theorem C12_del_non_interference : forall Hs d d' p q, distinct d d' ->
+  exists p', h_del d p = Ok p' /\ h_lookup Hs d' p' q = h_lookup Hs d' p q /\ h_gets Hs d' p' q = h_gets Hs d' p q.
+Proof. exact del_non_interference. Qed.
+Print Assumptions C12_del_non_interference.
+
+(* values survive MarshalBinary -> Parse (Encode differs from it in the authenticator field only, C03) *)
+Theorem C12_wire_survives : forall Hs d p q w, on_wire d -> (0 <= code p <= 255)%Z -> length (auth p) = 16 ->
+  marshal p = Ok w ->
+  exists p', parse w (secret p) = Ok p' /\
+    h_lookup Hs d p' q = h_lookup Hs d p q /\ h_gets Hs d p' q = h_gets Hs d p q.
+Proof. exact wire_survives. Qed.
+Print Assumptions C12_wire_survives.
+
+(* setters refuse values the attribute cannot carry; a refusal is decided before the packet is
+   touched (Set fails exactly when the encoder or the vendor framing refuses the value) *)
+Theorem C12_set_fails_iff : forall Hs d p salt tag v, is_concat d = false ->
+  (exists e, h_set Hs d p salt tag v = Err e) <->
+  (exists e, h_encode Hs d p salt tag v = Err e) \/
+  (exists a vid, h_encode Hs d p salt tag v = Ok a /\ h_vendor d = Some vid /\ (length a = 0 \/ 247 < length a)).
+Proof. exact set_fails_iff. Qed.
+Print Assumptions C12_set_fails_iff.
+Theorem C12_refuses_wrong_size : forall Hs d p salt tag v n, h_kind d = KBytes -> h_size d = Some n ->
+  zlen (g_b v) <> n -> h_encode Hs d p salt tag v = Err E_invalid.
+Proof. exact refuses_wrong_size. Qed.
+Print Assumptions C12_refuses_wrong_size.
+Theorem C12_refuses_oversize : forall Hs d p salt tag v, h_kind d = KBytes -> h_enc d = 0%Z ->
+  (253 < length (g_b v) \/ (h_tag d = true /\ (tag <= 31)%N /\ 252 < length (g_b v))) ->
+  exists e, h_encode Hs d p salt tag v = Err e.
+Proof. exact refuses_oversize. Qed.
+Print Assumptions C12_refuses_oversize.
+Theorem C12_refuses_wrong_family4 : forall Hs d p salt tag v, h_kind d = KIP4 -> is_v4 (g_b v) = false ->
+  exists e, h_encode Hs d p salt tag v = Err e.
+Proof. exact refuses_wrong_family4. Qed.
+Print Assumptions C12_refuses_wrong_family4.
+Theorem C12_refuses_wrong_family6 : forall Hs d p salt tag v, h_kind d = KIP6 ->
+  length (g_b v) <> 4 -> length (g_b v) <> 16 -> exists e, h_encode Hs d p salt tag v = Err e.
+Proof. exact refuses_wrong_family6. Qed.
+Print Assumptions C12_refuses_wrong_family6.
+Theorem C12_refuses_wrong_ifid : forall Hs d p salt tag v, h_kind d = KIFID -> length (g_b v) <> 8 ->
+  exists e, h_encode Hs d p salt tag v = Err e.
+Proof. exact refuses_wrong_ifid. Qed.
+Print Assumptions C12_refuses_wrong_ifid.
+Theorem C12_refuses_time_out_of_range : forall Hs d p salt tag v, h_kind d = KDate ->
+  (g_u v < 0 \/ 4294967295 < g_u v)%Z -> exists e, h_encode Hs d p salt tag v = Err e.
+Proof. exact refuses_time_out_of_range. Qed.
+Print Assumptions C12_refuses_time_out_of_range.
+Theorem C12_refuses_tagged_int_above_24_bits : forall Hs d p salt tag v n, h_kind d = KInt n -> h_tag d = true ->
+  (16777215 < g_u v)%Z -> h_encode Hs d p salt tag v = Err E_invalid.
+Proof. exact refuses_tagged_int_above_24_bits. Qed.
+Print Assumptions C12_refuses_tagged_int_above_24_bits.
+
+(* encrypted attributes are stored obfuscated: the packet holds the RFC hiding of the value *)
+Theorem C12_stored_user_password_hidden : forall Hs : bytes -> bytes, (forall x, length (Hs x) = 16) ->
+  forall d p p' salt tag v, wfd d -> h_kind d = KBytes -> h_enc d = 1%Z -> h_tag d = false ->
+  h_set Hs d p salt tag v = Ok p' -> h_raw d p' = [rfc_up_encrypt Hs (secret p) (auth p) (g_b v)].
+Proof. exact stored_user_password_hidden. Qed.
+Print Assumptions C12_stored_user_password_hidden.
+Theorem C12_stored_tunnel_password_hidden : forall Hs : bytes -> bytes, (forall x, length (Hs x) = 16) ->
+  forall d p p' salt tag v, wfd d -> h_kind d = KBytes -> h_enc d = 2%Z ->
+  h_set Hs d p salt tag v = Ok p' ->
+  exists c, h_raw d p' = [if h_tag d && (tag <=? 31)%N then tag :: c else c] /\
+            c = rfc_tp_encrypt Hs (secret p) (auth p) (forced_salt salt) (g_b v).
+Proof. exact stored_tunnel_password_hidden. Qed.
+Print Assumptions C12_stored_tunnel_password_hidden.
+
+(* the laws for the real hash *)
+Theorem C12_set_lookup_md5 : forall d p p' q salt tag v,
+  wfd d -> is_concat d = false -> admissible d tag v -> auth q = auth p -> length salt = 2 ->
+  h_set md5 d p salt tag v = Ok p' ->
+  exists tv, h_lookup md5 d p' q = Ok tv /\ h_gets md5 d p' q = Ok [tv] /\ reads_back d tag v tv.
+Proof. exact (set_lookup md5 md5_length). Qed.
+Print Assumptions C12_set_lookup_md5.
+
+(* where the full statement is false of the code: tags above 0x1F (finding F9) and empty concat values (F20) *)
+Theorem C12_tag_above_31_refuted :
+  (exists p', h_set idH ex_tagged_str ex_p [] 32 (gv_b [97; 98]%N) = Ok p' /\
+              h_lookup idH ex_tagged_str p' ex_p = Ok (0%N, gv_b [97; 98]%N)) /\
+  (exists p', h_set idH ex_tagged_str ex_p [] 32 (gv_b [5; 98]%N) = Ok p' /\
+              h_lookup idH ex_tagged_str p' ex_p = Ok (5%N, gv_b [98]%N)) /\
+  (exists p', h_set idH ex_tagged_int ex_p [] 32 (gv_u 7) = Ok p' /\
+              h_lookup idH ex_tagged_int p' ex_p = Ok (0%N, gv_u 7)).
+Proof. exact tag_above_31_refuted. Qed.
+Print Assumptions C12_tag_above_31_refuted.
+Theorem C12_concat_empty_refuted :
+  exists p', h_set idH ex_concat ex_p [] 0 (gv_b []) = Ok p' /\ h_lookup idH ex_concat p' ex_p = Err E_noattr.
+Proof. exact concat_empty_refuted. Qed.
+Print Assumptions C12_concat_empty_refuted.
